@@ -42,7 +42,8 @@ Verdicts on the implementation's answer `<result> ; <raw state> V <flag> [R <fla
   dag_query            fathers / sons of a DAG node are not the ones of the reported edge table
   keeps_object         `setFather` / `addSon` with an edge object succeeded but the object is not the one of
                        the new link (`getEdgeLinking(father, son)`); `addSon` with a free object, two known nodes and no
-                       relation yet between them (`TW.addSonReady`) did not succeed; `setFather` with an object attached
+                       relation yet between them (`TW.addSonReady`) did not succeed; `setFather` with two known nodes, a free object or the one of
+                       the current branch and at most one incoming neighbour (`TW.setFatherReady`) did not succeed; `setFather` with an object attached
                        to another branch (`TW.setFatherForeign`) was not refused or changed something; the observer's maps
                        are no longer inverse of each other / name dead ids (`obs:<clause>`, C14); `rootAt` changed an association
 -/
@@ -672,6 +673,8 @@ def setFatherW (st : St) (impl : Option (List String)) (a f : Obj) (x : Option O
       if (match prev with | some p => p.setFatherForeign st.osel a x' && (res != ["exc:bpp"] || wi.w != p.w || wi.valid != p.valid) | none => false)
       then some "keeps_object" else
       if res == ["ok"] && World.edgeLinking wi.w o f a != some (some x') then some "keeps_object" else
+      -- with everything it needs (judged on the implementation's previous report) the call must go through (`setFather_succeeds`)
+      if (match prev with | some p => p.setFatherReady st.osel a f x' && res != ["ok"] | none => false) then some "keeps_object" else
       (match prev with
        | some p =>
          (match p.w.getObs st.osel with
